@@ -179,24 +179,15 @@ def peekIntoStream(substrate, size=-1):
     : :py:class:`bytes` or :py:class:`str`
         The return type depends on Python major version
     """
-    if hasattr(substrate, "peek"):
-        received = substrate.peek(size)
-        if received is None:
-            yield
+    # `peek()` of buffered streams is of no use here: it may legitimately
+    # return fewer octets than asked for, no matter how often it is called
+    current_position = substrate.tell()
+    try:
+        for chunk in readFromStream(substrate, size):
+            yield chunk
 
-        while len(received) < size:
-            yield
-
-        yield received
-
-    else:
-        current_position = substrate.tell()
-        try:
-            for chunk in readFromStream(substrate, size):
-                yield chunk
-
-        finally:
-            substrate.seek(current_position)
+    finally:
+        substrate.seek(current_position)
 
 
 def readFromStream(substrate, size=-1, context=None):
